@@ -37,7 +37,8 @@ ASSUMPTIONS = [
     'taxonomy and int/float columns convert on every row',
 ]
 ANCHORS = ['Table.add_metadata', 'Table.del_metadata', 'Table._cast_metadata', 'MetadataMap.from_file', '_add_metadata']
-REQUIRED = ['add_metadata_calls', 'add_on_axis_without_metadata',
+REQUIRED = ['other_tables_rechecked', 'built_with_one_entry_object',
+            'built_from_other_tables_metadata', 'add_metadata_calls', 'add_on_axis_without_metadata',
             'add_partial_overlap', 'add_overwrite_existing_key',
             'del_metadata_calls', 'del_on_jagged_metadata', 'del_keys_none',
             'del_whole', 'mapfile_parsed_lines', 'mapfile_parsed_handle',
@@ -100,11 +101,67 @@ def rand_entry(r, keys):
 def run_api(ctx, r, index):
     spec = gen.gen_spec(r, max_n=5, max_m=5, md_kinds=['none', 'text', 'int',
                                                        'multi', 'taxonomy'])
-    t = gen.apply_layout(ctx.biom, spec, r.choice(gen.LAYOUTS), r)
+    how = r.choice(['layout', 'layout', 'from-other-tables-metadata',
+                    'one-entry-object-for-all-ids'])
+    relatives = []      # (name, table, snapshot): tables that must not move
+    if how == 'one-entry-object-for-all-ids' and (spec.obs_md or
+                                                  spec.samp_md):
+        # every id of an axis is given one and the same entry object
+        for axis in ('observation', 'sample'):
+            md = spec.md(axis)
+            if md:
+                e = copy.deepcopy(md[r.randrange(len(md))])
+                if axis == 'observation':
+                    spec.obs_md = [copy.deepcopy(e) for _ in md]
+                else:
+                    spec.samp_md = [copy.deepcopy(e) for _ in md]
+        ref = gen.build(ctx.biom, spec, 'dense')
+        pick = r.random() < .5      # the library's own entry type, or dicts
+
+        def one(axis):
+            md = ref.metadata(axis=axis)
+            if md is None:
+                return None
+            e = md[0] if pick else dict(md[0])
+            return [e for _ in md]
+        t = ctx.biom.Table(spec.D.copy(), list(spec.obs_ids),
+                           list(spec.samp_ids), one('observation'),
+                           one('sample'), type=spec.type)
+        relatives.append(('table whose metadata entry was reused', ref,
+                          snap.snap(ref)))
+        ctx.count('built_with_one_entry_object')
+    elif how == 'from-other-tables-metadata':
+        ref = gen.apply_layout(ctx.biom, spec, r.choice(gen.LAYOUTS), r)
+        t = ctx.biom.Table(ref.matrix_data, ref.ids(axis='observation'),
+                           ref.ids(), ref.metadata(axis='observation'),
+                           ref.metadata(), type=spec.type)
+        relatives.append(('table whose metadata() was passed to the '
+                          'constructor', ref, snap.snap(ref)))
+        ctx.count('built_from_other_tables_metadata')
+    else:
+        t = gen.apply_layout(ctx.biom, spec, r.choice(gen.LAYOUTS), r)
+    # tables derived from t before the updates
+    try:
+        ax = r.choice(['observation', 'sample'])
+        d1 = t.sort_order(list(spec.ids(ax))[::-1], axis=ax)
+        relatives.append(('sort_order result', d1, snap.snap(d1)))
+        d2 = ctx.biom.Table(t.matrix_data, t.ids(axis='observation'),
+                            t.ids(), t.metadata(axis='observation'),
+                            t.metadata(), type=spec.type)
+        relatives.append(('table built from metadata()', d2, snap.snap(d2)))
+        if r.random() < .5:
+            for lab, part in t.partition(lambda i, m: len(i) % 2, axis=ax):
+                relatives.append(('partition part', part, snap.snap(part)))
+        if r.random() < .3:
+            d3 = t.transpose()
+            relatives.append(('transpose result', d3, snap.snap(d3)))
+    except Exception as e:
+        raise Violation('C18/harness-derivation-failed', '%s: %s' %
+                        (type(e).__name__, e))
     cur = {'observation': copy.deepcopy(spec.obs_md),
            'sample': copy.deepcopy(spec.samp_md)}
     steps = []
-    desc = {'table': spec.describe(), 'steps': steps}
+    desc = {'table': spec.describe(), 'steps': steps, 'built': how}
     nontrivial = False
     for _ in range(r.randint(1, 4)):
         op = r.choice(['add', 'add', 'del'])
@@ -181,6 +238,13 @@ def run_api(ctx, r, index):
                 cur[a] = model_del(cur[a], keys)
         check_md(t, spec, cur['observation'], cur['sample'], 'C18/api',
                  desc)
+        for nm, tab, sn in relatives:
+            d = snap.diff(snap.snap(tab), sn)
+            if d:
+                raise Violation('C18/other-table-changed', 'updating the '
+                                'metadata of one table changed another (%s): '
+                                '%s; case=%r' % (nm, '; '.join(d), desc))
+        ctx.count('other_tables_rechecked', len(relatives))
     ctx.case(desc, nontrivial)
 
 
